@@ -1,9 +1,14 @@
 // Package ring: correspondence component `ring` (C20) — RingBuffer[int] against Model/Ring.
 // Values pushed are ≥ 1 so that 0 is recognisably a cleared slot.
+//
+// Every op line is answered by `<ret> h=<head> t=<tail> e=<slots>` on both sides; <slots> is a
+// LOSSLESS run-length form of the raw slice (see encodeSlots; the driver has the same encoder),
+// so the layout comparison is exact after every op at every capacity.
 package ring
 
 import (
 	"fmt"
+	"sort"
 	"strconv"
 	"strings"
 
@@ -17,23 +22,74 @@ type runner struct {
 	q    []int // list oracle (the abstract FIFO queue)
 	next int
 	key  strings.Builder
+	dead bool // the real code panicked in this case: the rest of the sequence is skipped
+	nops int
+}
+
+// encodeSlots: tokens joined by ","; a maximal run of z zero slots is `0` (z == 1) or `0*z`;
+// a maximal run v,v+1,…,w of ≥ 3 consecutive ascending non-zero values is `v..w`; shorter runs
+// are written value by value.  One left-to-right pass (the driver mirrors this state machine).
+func encodeSlots(e []int) string {
+	var sb strings.Builder
+	first := true
+	tok := func(s string) {
+		if !first {
+			sb.WriteByte(',')
+		}
+		first = false
+		sb.WriteString(s)
+	}
+	const (
+		rNone = iota
+		rZeros
+		rAsc
+	)
+	kind, a, b := rNone, 0, 0 // zeros: a = count; asc: values a..b
+	flush := func() {
+		switch kind {
+		case rZeros:
+			if a == 1 {
+				tok("0")
+			} else {
+				tok("0*" + strconv.Itoa(a))
+			}
+		case rAsc:
+			switch {
+			case b == a:
+				tok(strconv.Itoa(a))
+			case b == a+1:
+				tok(strconv.Itoa(a))
+				tok(strconv.Itoa(b))
+			default:
+				tok(strconv.Itoa(a) + ".." + strconv.Itoa(b))
+			}
+		}
+	}
+	for _, v := range e {
+		switch {
+		case v == 0 && kind == rZeros:
+			a++
+		case v == 0:
+			flush()
+			kind, a = rZeros, 1
+		case kind == rAsc && v == b+1:
+			b = v
+		default:
+			flush()
+			kind, a, b = rAsc, v, v
+		}
+	}
+	flush()
+	return sb.String()
 }
 
 func state(r *kcp.RingBuffer[int]) string {
 	h, t, e := kcp.VerifRingState(r)
-	var sb strings.Builder
-	fmt.Fprintf(&sb, "h=%d t=%d e=", h, t)
-	for i, v := range e {
-		if i > 0 {
-			sb.WriteByte(',')
-		}
-		sb.WriteString(strconv.Itoa(v))
-	}
-	return sb.String()
+	return fmt.Sprintf("h=%d t=%d e=%s", h, t, encodeSlots(e))
 }
 
 func (x *runner) viol(kind, detail string) {
-	x.o.Violate(hx.Violation{Kind: kind, Detail: detail, Replay: []string{x.key.String()}})
+	x.o.Violate(hx.Violation{Kind: kind, Detail: detail, Replay: strings.Split(strings.TrimSuffix(x.key.String(), ";"), ";")})
 }
 
 // liveCheck compares the ring with the list oracle through the public API only.
@@ -53,7 +109,21 @@ func (x *runner) liveCheck(op string) {
 		return true
 	})
 	if !ok || i != len(x.q) {
-		x.viol("ring-order", fmt.Sprintf("after %s: iteration differs from queue model at %d", op, i))
+		x.viol("ring-order", fmt.Sprintf("after %s: forward iteration differs from queue model at position %d", op, i))
+	}
+	// the same from the back (ForEachReverse is a separate piece of index arithmetic)
+	j := len(x.q) - 1
+	ok = true
+	x.r.ForEachReverse(func(p *int) bool {
+		if j < 0 || *p != x.q[j] {
+			ok = false
+			return false
+		}
+		j--
+		return true
+	})
+	if !ok || j != -1 {
+		x.viol("ring-order", fmt.Sprintf("after %s: reverse iteration differs from queue model at position %d", op, j))
 	}
 	// freed slots cleared: the number of non-zero slots equals the length
 	_, _, e := kcp.VerifRingState(x.r)
@@ -64,28 +134,44 @@ func (x *runner) liveCheck(op string) {
 		}
 	}
 	if nz != len(x.q) {
-		x.viol("ring-retain", fmt.Sprintf("after %s: %d non-zero slots but %d live elements", op, nz, len(x.q)))
+		x.viol("ring-retain", fmt.Sprintf("after %s: %d non-zero slots but %d live elements (a vacated slot still holds its element, or a dead slot was written)", op, nz, len(x.q)))
+	}
+	if x.r.Len() > x.r.MaxLen() {
+		x.viol("ring-len", fmt.Sprintf("after %s: Len()=%d exceeds MaxLen()=%d", op, x.r.Len(), x.r.MaxLen()))
 	}
 }
 
-func (x *runner) do(op string) {
-	x.key.WriteString(op)
-	x.key.WriteByte(';')
-	f := strings.Fields(op)
-	x.o.Count("op:" + f[0])
+// apply performs one op on the real ring and on the list oracle; returns the op's output.
+// A panic of the real code propagates to do().
+func (x *runner) apply(op string, f []string) string {
 	ret := "ok"
 	switch f[0] {
 	case "new":
 		n, _ := strconv.Atoi(f[1])
 		x.r = kcp.NewRingBuffer[int](n)
 		x.q = x.q[:0]
+		if x.r.MaxLen()+1 != max(n, kcp.RINGBUFFER_MIN) {
+			x.viol("ring-new", fmt.Sprintf("NewRingBuffer(%d) has capacity %d", n, x.r.MaxLen()+1))
+		}
 	case "push":
 		v, _ := strconv.Atoi(f[1])
 		before := x.r.MaxLen()
+		wasFull := x.r.IsFull()
 		x.r.Push(v)
 		x.q = append(x.q, v)
 		if x.r.MaxLen() != before {
 			x.o.Count("grow")
+			switch {
+			case before+1 < kcp.RINGBUFFER_EXP:
+				x.o.Count("grow:double")
+			default:
+				x.o.Count("grow:+10%")
+			}
+			if !wasFull {
+				x.viol("ring-grow", "Push grew a ring that was not full")
+			}
+		} else if wasFull {
+			x.viol("ring-grow", "Push on a full ring did not grow it")
 		}
 	case "pop":
 		v, ok := x.r.Pop()
@@ -117,6 +203,17 @@ func (x *runner) do(op string) {
 		}
 	case "discard":
 		n, _ := strconv.Atoi(f[1])
+		h, _, e := kcp.VerifRingState(x.r)
+		switch {
+		case n >= len(x.q):
+			x.o.Count("discard:all(clear)")
+		case h+n < len(e):
+			x.o.Count("discard:contiguous")
+		case h+n == len(e):
+			x.o.Count("discard:ends-at-array-end")
+		default:
+			x.o.Count("discard:wraps")
+		}
 		m := x.r.Discard(n)
 		ret = strconv.Itoa(m)
 		want := min(n, len(x.q))
@@ -145,137 +242,248 @@ func (x *runner) do(op string) {
 		d, _ := strconv.Atoi(f[1])
 		m, _ := strconv.Atoi(f[2])
 		k, _ := strconv.Atoi(f[3])
+		h, t, _ := kcp.VerifRingState(x.r)
+		switch {
+		case len(x.q) == 0:
+			x.o.Count("iter:empty")
+		case h < t:
+			x.o.Count("iter:contiguous")
+		case t == 0:
+			x.o.Count("iter:full-to-the-end(tail=0)")
+		default:
+			x.o.Count("iter:wrapped")
+		}
+		// the closure's captured state: an order-sensitive checksum of the values it is shown
+		// (starts at 1 so that a leading zero slot shown to the callback changes it)
+		var acc, accQ uint32 = 1, 1
 		fn := func(p *int) bool {
 			old := *p
+			acc = acc*31 + uint32(old)
 			*p = old + d
 			return old%m != k
 		}
 		// queue model: same visiting order and early stop
+		visit := func(i int) bool {
+			old := x.q[i]
+			accQ = accQ*31 + uint32(old)
+			x.q[i] = old + d
+			return old%m != k
+		}
+		stopped := false
 		if f[0] == "foreach" {
 			x.r.ForEach(fn)
 			for i := 0; i < len(x.q); i++ {
-				old := x.q[i]
-				x.q[i] = old + d
-				if old%m == k {
+				if !visit(i) {
+					stopped = true
 					break
 				}
 			}
 		} else {
 			x.r.ForEachReverse(fn)
 			for i := len(x.q) - 1; i >= 0; i-- {
-				old := x.q[i]
-				x.q[i] = old + d
-				if old%m == k {
+				if !visit(i) {
+					stopped = true
 					break
 				}
 			}
 		}
+		if stopped {
+			x.o.Count("iter:early-stop")
+		}
+		if acc != accQ {
+			x.viol("ring-visit", fmt.Sprintf("%s showed the callback a different value sequence than the queue model (checksum %d, want %d)", f[0], acc, accQ))
+		}
+		ret = strconv.FormatUint(uint64(acc), 10)
 	default:
 		panic("ring: unknown op " + op)
 	}
-	x.liveCheck(op)
-	x.o.Op(op, ret+" "+state(x.r))
+	return ret
 }
 
-var startCaps = []int{0, 8, 9, 16, 1023, 1024, 1025, 1127}
+func (x *runner) do(op string) {
+	if x.dead {
+		return
+	}
+	x.key.WriteString(op)
+	x.key.WriteByte(';')
+	x.nops++
+	f := strings.Fields(op)
+	x.o.Count("op:" + f[0])
+	var ret, st string
+	msg := hx.Try(func() { ret = x.apply(op, f) })
+	if msg == "" {
+		msg = hx.Try(func() { x.liveCheck(op) })
+	}
+	if msg == "" {
+		msg = hx.Try(func() { st = state(x.r) })
+	}
+	if msg != "" {
+		// no RingBuffer method may panic on any op sequence (C20: total queue operations)
+		x.o.Count("panic")
+		x.viol("ring-panic", fmt.Sprintf("%s (or the read-back after it) panicked: %s", op, msg))
+		x.o.Op(op, "panic "+msg)
+		x.dead = true
+		return
+	}
+	x.o.Op(op, ret+" "+st)
+}
+
+var smallCaps = []int{-3, 0, 8, 9, 16} // requested sizes ≤ RINGBUFFER_MIN (also negative) give capacity 8
+var largeCaps = []int{1023, 1024, 1025, 1127}
+
+func (x *runner) pushNext() {
+	x.next++
+	x.do(fmt.Sprintf("push %d", x.next))
+}
 
 func (x *runner) randomOp(g *hx.Rng, growBias bool) string {
 	w := g.Intn(100)
-	pushW := 35
+	iterW := 8
 	if growBias {
-		pushW = 70
+		iterW = 3
 	}
 	switch {
-	case w < pushW:
-		x.next++
-		return fmt.Sprintf("push %d", x.next)
-	case w < pushW+15:
+	case w < 15:
 		return "pop"
-	case w < pushW+19:
+	case w < 19:
 		return "peek"
-	case w < pushW+27:
+	case w < 29:
 		n := len(x.q)
-		return fmt.Sprintf("discard %d", []int{0, 1, 2, n / 2, max(n-1, 0), n, n + 1}[g.Intn(7)])
-	case w < pushW+29:
+		h, _, e := kcp.VerifRingState(x.r)
+		toEnd := len(e) - h // a Discard of exactly this many ends at the array end
+		var n0 int
+		switch c := g.Intn(100); {
+		case c < 20:
+			n0 = g.Intn(3)
+		case c < 45:
+			n0 = []int{n / 2, max(n-1, 0)}[g.Intn(2)]
+		case c < 55:
+			n0 = n + g.Intn(2) // everything (the Clear shortcut), also n > len
+		default:
+			n0 = max(toEnd-1+g.Intn(4), 0) // around the array end: toEnd-1 .. toEnd+2
+			if n0 >= n && g.Chance(80) {
+				n0 = n / 2
+			}
+		}
+		return fmt.Sprintf("discard %d", n0)
+	case w < 30:
 		return "clear"
-	case w < pushW+33:
+	case w < 34:
 		return []string{"len", "isempty", "isfull", "maxlen"}[g.Intn(4)]
-	case w < pushW+38:
+	case w < 34+iterW:
 		m := 2 + g.Intn(9)
 		return fmt.Sprintf("foreach %d %d %d", 1+g.Intn(3), m, g.Intn(m+1)) // k==m: never stops
-	default:
+	case w < 34+2*iterW:
 		m := 2 + g.Intn(9)
 		return fmt.Sprintf("foreachrev %d %d %d", 1+g.Intn(3), m, g.Intn(m+1))
+	default:
+		x.next++
+		return fmt.Sprintf("push %d", x.next)
 	}
+}
+
+// start builds a layout (capacity c, head offset h, fill level) through the public API only.
+func (x *runner) start(c, h, fill int, viaDiscard bool) {
+	x.do(fmt.Sprintf("new %d", c))
+	if viaDiscard && h > 0 {
+		for i := 0; i < h; i++ {
+			x.pushNext()
+		}
+		x.do(fmt.Sprintf("discard %d", h-1)) // the non-Clear branch; the last one is popped
+		x.do("pop")
+	} else {
+		for i := 0; i < h; i++ {
+			x.pushNext()
+			x.do("pop")
+		}
+	}
+	for i := 0; i < fill; i++ {
+		x.pushNext()
+	}
+}
+
+func (x *runner) finish() {
+	x.o.Case(hx.HashKey(x.key.String()))
+	x.o.Res.Cases-- // the key registration above is not a new case
+	x.o.CountN("ops-per-case-total", x.nops)
 }
 
 // Run generates op sequences.  quick: random sequences from a family of start layouts;
 // thorough: additionally exhaustive sequences to a depth bound and long growth chains.
 func Run(o *hx.Out, g *hx.Rng, tier string) {
-	o.Res.Rule = "a case is one op sequence from one start layout (capacity, head offset, fill); distinct = distinct op strings; non-trivial = at least one element stored"
-	nseq, seqlen := 150, 120
+	o.Res.Rule = "a case is one op sequence from one start layout (capacity, head offset, fill); distinct = distinct hash of the full op string; non-trivial = at least one element stored"
+	nseq, seqlen := 400, 120
 	if tier == "thorough" {
-		nseq, seqlen = 3000, 300
+		nseq, seqlen = 4000, 300
 	}
 	for s := 0; s < nseq; s++ {
 		x := &runner{o: o}
-		c := startCaps[g.Intn(len(startCaps))]
+		// 65 % small capacities (cheap, most of the index arithmetic), 35 % around RINGBUFFER_EXP
+		c := smallCaps[g.Intn(len(smallCaps))]
+		if g.Chance(35) {
+			c = largeCaps[g.Intn(len(largeCaps))]
+		}
 		o.Case("")
-		x.do(fmt.Sprintf("new %d", c))
-		// head offset h and fill level l built through the public API
-		capn := x.r.MaxLen() + 1
+		capn := max(c, kcp.RINGBUFFER_MIN)
 		h := g.Intn(capn)
 		if capn > 64 && g.Chance(50) {
 			h = capn - 1 - g.Intn(4) // near the wrap point
 		}
-		for i := 0; i < h; i++ {
-			x.next++
-			x.do(fmt.Sprintf("push %d", x.next))
-			x.do("pop")
-		}
 		fill := g.Intn(capn)
-		if g.Chance(30) {
+		switch w := g.Intn(100); {
+		case w < 30:
 			fill = capn - 1 - g.Intn(2) // about to grow
+		case w < 45 && h > 0:
+			fill = capn - h // tail == 0 with head > 0: the "full to the end" layout
 		}
-		for i := 0; i < fill; i++ {
-			x.next++
-			x.do(fmt.Sprintf("push %d", x.next))
+		o.Count(fmt.Sprintf("start:cap=%d", capn))
+		if h+fill >= capn {
+			o.Count("start:wrapped")
+		} else {
+			o.Count("start:contiguous")
 		}
+		x.start(c, h, fill, g.Chance(50) || (capn > 64 && g.Chance(70)))
 		growBias := g.Chance(30)
 		for i := 0; i < seqlen; i++ {
 			x.do(x.randomOp(g, growBias))
 		}
-		o.Case(x.key.String()[:min(x.key.Len(), 4000)])
-		o.Res.Cases-- // the key registration above is not a new case
+		x.finish()
 	}
 	if tier == "thorough" {
-		exhaustive(o, 5)
-		// growth chain 8 -> 2048+ (crosses doubling and +10% regimes), with a wrapped layout
+		// (head offset, fill) at capacity 8; {3,5}: tail == 0; {5,7}: full, the next push grows
+		// (every shorter sequence is a prefix of these and is checked op by op on the way)
+		exhaustive(o, 6, [][2]int{{0, 0}, {6, 3}, {7, 6}, {5, 7}, {3, 5}})
+	}
+	// growth chains 8 -> 2048+ (cross the doubling and the +10% regimes) from wrapped layouts
+	chains := [][3]int{{8, 5, 2600}}
+	if tier == "thorough" {
+		chains = [][3]int{{8, 5, 2600}, {0, 7, 2300}, {9, 3, 2500}, {1023, 1000, 2200}, {1024, 1023, 2400}, {1025, 512, 2400}, {1127, 1126, 2600}}
+	}
+	for _, ch := range chains {
 		x := &runner{o: o}
-		o.Case("growth-chain")
-		x.do("new 8")
-		for i := 0; i < 5; i++ {
-			x.next++
-			x.do(fmt.Sprintf("push %d", x.next))
-			x.do("pop")
-		}
-		for i := 0; i < 2600; i++ {
-			x.next++
-			x.do(fmt.Sprintf("push %d", x.next))
+		o.Case("")
+		x.start(ch[0], ch[1], 0, false)
+		for i := 0; i < ch[2]; i++ {
+			x.pushNext()
 			if i%500 == 499 {
 				x.do("pop")
 				x.do("foreachrev 1 7 3")
+				x.do("foreach 2 5 5")
 			}
 		}
+		o.Count("growth-chain")
+		x.finish()
 	}
+	// report the shortest failing op sequence first
+	sort.SliceStable(o.Res.Violations, func(i, j int) bool {
+		return len(o.Res.Violations[i].Replay) < len(o.Res.Violations[j].Replay)
+	})
 }
 
 // exhaustive enumerates every op sequence of the given depth over a small alphabet from a few
 // wrapped start layouts.
-func exhaustive(o *hx.Out, depth int) {
+func exhaustive(o *hx.Out, depth int, starts [][2]int) {
 	alphabet := []string{"push", "pop", "peek", "discard 1", "discard 2", "discard 99", "clear", "foreach 1 3 1", "foreachrev 1 3 1"}
-	starts := [][2]int{{0, 0}, {6, 3}, {7, 6}, {5, 7}} // (head offset, fill) at capacity 8
-	var rec func(prefix []int)
 	total := 1
 	for i := 0; i < depth; i++ {
 		total *= len(alphabet)
@@ -284,16 +492,7 @@ func exhaustive(o *hx.Out, depth int) {
 		for code := 0; code < total; code++ {
 			x := &runner{o: o}
 			o.Case("")
-			x.do("new 8")
-			for i := 0; i < st[0]; i++ {
-				x.next++
-				x.do(fmt.Sprintf("push %d", x.next))
-				x.do("pop")
-			}
-			for i := 0; i < st[1]; i++ {
-				x.next++
-				x.do(fmt.Sprintf("push %d", x.next))
-			}
+			x.start(8, st[0], st[1], false)
 			c := code
 			for i := 0; i < depth; i++ {
 				a := alphabet[c%len(alphabet)]
@@ -304,10 +503,8 @@ func exhaustive(o *hx.Out, depth int) {
 				}
 				x.do(a)
 			}
-			o.Case(fmt.Sprintf("ex-%d-%d-%d", st[0], st[1], code))
-			o.Res.Cases--
+			x.finish()
 		}
 	}
-	_ = rec
 	o.Note(fmt.Sprintf("exhaustive: %d starts x %d^%d sequences", len(starts), len(alphabet), depth))
 }
